@@ -334,7 +334,8 @@ Theorem read_parameters_written : forall h pr gs sec blocks hb data st,
   Forall wf_item (items_v gs 1 (blocks + 1)) ->
   h_paddr h = 2 -> h_zeros h = 0 -> length hb = 512%nat ->
   st_fail st = false -> st_file st = hb ++ sec ++ data ->
-  exists st', read_parameters h st = Ok ((mkPro 1 80 (blocks - 1) 84, map (canon_g (blocks + 1)) gs), st').
+  exists st', read_parameters h st = Ok ((mkPro 1 80 (blocks - 1) 84, map (canon_g (blocks + 1)) gs), st') /\
+    st_fail st' = false /\ st_file st' = st_file st.
 Proof.
   intros h pr gs sec blocks hb data st Hok Hn Hg Hs Hb Hst Wf Hp Hz Lh Hf Hfile.
   destruct (section_canonical pr gs sec blocks Hok Hn Hs Hb) as [pad [Hpad Esec]].
@@ -372,7 +373,7 @@ Proof.
   unfold rbind at 1.
   rewrite (walk_items its _ [] st4 (z ++ data) Wf).
   - unfold its, v. rewrite <- (app_nil_l (map _ gs)). change 1%Z with (Z.of_nat (length (@nil group)) + 1)%Z.
-    rewrite (apply_tree (blocks + 1) gs [] Hg). unfold rret. eexists. reflexivity.
+    rewrite (apply_tree (blocks + 1) gs [] Hg). unfold rret. eexists. split; [reflexivity|]. split; reflexivity.
   - pose proof (items_len_ge its). unfold nlen. rewrite Nat2N.id. lia.
   - reflexivity.
   - rewrite Pos4. lia.
